@@ -59,14 +59,16 @@ Canon(c) == CASE c.t = "int" -> ToString(c.n)
               [] OTHER -> c.s
 
 (* ------------------------------------------------------------------ (3) delivery matrix *)
-Formats == {"md", "csv", "xls", "xlsx", "xlsm", "dict"}
+\* "dict_rows": the dict given as rows only (no <sheet>_header keys): the columns are then the keys of the rows, in order of first
+\* appearance - the content is the same but the column ORDER of sparse sheets is not part of it
+Formats == {"md", "csv", "xls", "xlsx", "xlsm", "dict", "dict_rows"}
 Deliveries == {"path", "bytes", "bytesio", "file", "str"}
 \* which combinations exist: text formats can be passed as str; binary ones cannot; a dict is only itself
-ValidDelivery(f, d) == CASE f = "dict" -> d = "str"      \* placeholder delivery for the dict itself
+ValidDelivery(f, d) == CASE f \in {"dict", "dict_rows"} -> d = "str"      \* placeholder delivery for the dict itself
                          [] f \in {"md", "csv"} -> TRUE
                          [] OTHER -> d # "str"
 \* file_type may be given explicitly for in-memory data (a path carries its suffix)
-ValidFT(f, d, ft) == IF f = "dict" THEN ~ft ELSE TRUE
+ValidFT(f, d, ft) == IF f \in {"dict", "dict_rows"} THEN ~ft ELSE TRUE
 Matrix == {<<f, d, ft>> \in Formats \X Deliveries \X BOOLEAN : ValidDelivery(f, d) /\ ValidFT(f, d, ft)}
 SeqToSet(s) == {s[k] : k \in 1..Len(s)}
 =============================================================================
